@@ -26,17 +26,18 @@ def generics(lts):
 
 def rs_type(t):
     k = t[0]
+    selfsp = isinstance(t[-1], str) and t[-1] == "Self" and k in ("enum", "struct", "ref", "box")   # spelled `Self` in the source
     if k == "prim":
         return t[1]
     if k == "enum":
-        return t[1]
+        return "Self" if selfsp else t[1]
     if k == "struct":
-        return t[1] + generics(t[2])
+        return "Self" if selfsp else t[1] + generics(t[2])
     if k == "ref":
-        _, lt, mut, n, lts = t
-        return "&" + (lt_s(lt) + " " if lt else "") + ("mut " if mut else "") + n + generics(lts)
+        lt, mut, n, lts = t[1], t[2], t[3], t[4]
+        return "&" + (lt_s(lt) + " " if lt else "") + ("mut " if mut else "") + ("Self" if selfsp else n + generics(lts))
     if k == "box":
-        return "Box<" + t[1] + generics(t[2]) + ">"
+        return "Box<" + ("Self" if selfsp else t[1] + generics(t[2])) + ">"
     if k == "opt":
         return ("Option<" if t[2] == "std" else "DiplomatOption<") + rs_type(t[1]) + ">"
     if k == "slice":
@@ -79,6 +80,16 @@ def rs_type(t):
     if k == "ordering":
         return "core::cmp::Ordering"
     raise ValueError(t)
+
+
+def unself(t):
+    """copy of a type with `Self` spellings replaced by the named type"""
+    if not isinstance(t, list):
+        return t
+    out = [unself(x) if isinstance(x, list) and x and isinstance(x[0], str) and x[0] in ("prim", "enum", "struct", "ref", "box", "opt", "slice", "str", "strs", "result", "unit", "write", "cb", "ordering") else x for x in t]
+    if isinstance(out[-1], str) and out[-1] == "Self" and out[0] in ("enum", "struct", "ref", "box"):
+        out = out[:-1]
+    return out
 
 
 def type_lifetimes(t):
